@@ -13,7 +13,7 @@ import (
 
 // C03 — a rendered text table is a rectangle whose columns fit their widest cell.
 
-var c03Atoms = []string{"a", "", "abc", "a\nbc", "x\n", "\n", "ｗｗ", "é", "​", "\U0001F469‍\U0001F469‍\U0001F467"}
+var c03Atoms = []string{"a", "", "abc", "a\nbc", "x\n", "\n", "ｗｗ", "é", "​", "\U0001F469‍\U0001F469‍\U0001F467", "a\x7fb", "\x1b[1mz", "a\tb"}
 
 var decorFields = []string{"Horizontal", "Vertical", "CrossPiece", "TopDown", "VBorder", "HOuter", "HRule", "VHeader", "VBodyBorder", "VBodyInner",
 	"TopLeft", "TopRight", "BottomLeft", "BottomRight", "LeftBodyRule", "RightBodyRule", "HTopDown", "BTopDown", "BBottomUp", "HBCross", "HBLeft", "HBRight"}
@@ -47,7 +47,7 @@ func init() {
 		ID:        "C03",
 		Level:     "exploration",
 		Technique: "bounded exhaustive input/configuration enumeration (cell-text assignments, table shapes, every registered and custom decoration) rendered by the real code and compared line by line with a reference renderer transcribed from the statement, plus a whole-line width invariant in the library's measure",
-		Rule: "family lifecycle: one table and one long-lived wrapper, every sequence of <=4 (thorough 5) in-place modifications (items mutated to same-width/wider/narrower/multi-line text + Update, headers replaced incl. a swap that moves width between columns, rows grown), Render and failed RenderTo, each Render compared with the reference for the current content; family texts: 7 fixed shapes x every assignment of a 10-atom pool {a, empty, abc, two-line, trailing-LF, lone LF, double-width, combining, zero-width, ZWJ emoji} to <=4 cells x 3 (thorough 7) decorations; " +
+		Rule: "family lifecycle: one table and one long-lived wrapper, every sequence of <=4 (thorough 5) in-place modifications (items mutated to same-width/wider/narrower/multi-line text + Update, headers replaced incl. a swap that moves width between columns, rows grown), Render and failed RenderTo, each Render compared with the reference for the current content; family texts: 7 fixed shapes x every assignment of a 13-atom pool {a, empty, abc, two-line, trailing-LF, lone LF, double-width, combining, zero-width, ZWJ emoji, DEL, ESC sequence, TAB} to <=4 cells x 3 (thorough 7) decorations; " +
 			"family pairs: a 3x3 grid with header where every pair of positions ranges over the full pool; family shapes: header none/0..3, <=3 rows of sep|0..3 cells with >=1 column, 3 text patterns, all 6 registered decorations + 1 custom; " +
 			"family decorations: 2 grids x custom Decoration{} with every subset of the 3 seed glyphs x each single other field (thorough: all subsets of <=3 fields) after Populate; family populate: Populate on every subset of the 22 fields with <=2 (thorough: all 2^22) members: all fields non-empty, set fields kept; " +
 			"non-trivial = grid with multi-line/wide/zero-width text, ragged/zero-cell rows or separators, or a custom decoration; distinct by (grid, decoration)",
@@ -133,7 +133,7 @@ func runC03(x *X) {
 
 	// pairs of positions over the full pool in a larger grid
 	full := c03Atoms
-	x.Explore("pairs", ExploreOpts{ShardDepth: 2, Bound: "3x3 grid with header: every pair of the 12 positions over the full 10-atom pool, rest 'a'"}, func(c *Chooser) {
+	x.Explore("pairs", ExploreOpts{ShardDepth: 2, Bound: "3x3 grid with header: every pair of the 12 positions over the full 13-atom pool, rest 'a'"}, func(c *Chooser) {
 		g := &Grid{HasHeader: true, Header: []string{"a", "a", "a"}, Rows: []GridRow{{Cells: []string{"a", "a", "a"}}, {Cells: []string{"a", "a", "a"}}, {Cells: []string{"a", "a", "a"}}}}
 		var slots []*string
 		g.EachCell(func(kind string, row, col int, p *string) { slots = append(slots, p) })
@@ -157,6 +157,26 @@ func runC03(x *X) {
 		compareTextTable(x, "C03", tg, dc, append(g.Tags(), "decoration:"+dc.Name))
 	})
 
+	long := LongTexts("ｗ")
+	x.Explore("long-texts", ExploreOpts{ShardDepth: 2, Bound: fmt.Sprintf("3 shapes x %d long texts (63..1025 bytes, wide character in the middle/at the end, multi-byte, 12 and 40 lines) in one position x all decorations", len(long))}, func(c *Chooser) {
+		shape := c.Choose(3)
+		s := long[c.Choose(len(long))]
+		dc := allDecors[c.Choose(len(allDecors))]
+		var g *Grid
+		switch shape {
+		case 0:
+			g = &Grid{Rows: []GridRow{{Cells: []string{s}}}}
+		case 1:
+			g = &Grid{HasHeader: true, Header: []string{"h1", s}, Rows: []GridRow{{Cells: []string{"a", "é"}}, {Sep: true}, {Cells: []string{"c", "ｗｗ"}}, {Cells: []string{"d", "​z"}}}}
+		default:
+			g = &Grid{HasHeader: true, Header: []string{"h1", "hé"}, Rows: []GridRow{{Cells: []string{"a", s}}, {Cells: []string{s}}, {Cells: []string{"ｗ", "\x7f"}}}}
+		}
+		tg := fromGrid(g)
+		c.Logf("decoration=%s shape %d long text of %d bytes", dc.Name, shape, len(s))
+		x.Transition(1)
+		x.Nontrivial(fmt.Sprint(dc.Name, shape, hashStr(s)))
+		compareTextTable(x, "C03", tg, dc, append(g.Tags(), "decoration:"+dc.Name, "long_text"))
+	})
 	patterns := [][]string{{"a", "bb", "ccc", "dddd"}, {"a\nbb", "", "x\n", "ｗ"}, {"", "", "", ""}}
 	x.Explore("shapes", ExploreOpts{ShardDepth: 2, Bound: "header none/0..3, <=3 rows of sep|0..3 cells (>=1 column) x 3 text patterns x all registered decorations + 1 custom"}, func(c *Chooser) {
 		g := ChooseShape(c, ShapeCfg{MaxRows: 3, MaxCells: 3, Header: []int{-1, 0, 1, 2, 3}, Sep: true})
